@@ -127,7 +127,8 @@ fn small_opts(r: &mut Rng) -> LZMAOptions {
 
 pub fn n_files(ctx: &Ctx) -> u64 {
     if ctx.thorough() {
-        30
+        // cut by the wall budget of the thorough tier (a complete sweep of one file takes 1-2 s of one core)
+        240
     } else {
         6
     }
@@ -278,7 +279,7 @@ pub fn base_file(ctx: &Ctx, f: u64) -> BaseFile {
 pub const CLASSES: [&str; 6] = ["bitflip", "bytesub", "field", "region", "truncate+append", "unit-ops"];
 
 pub fn n_cases(ctx: &Ctx) -> u64 {
-    let garbage_batches = if ctx.thorough() { 200 } else { 24 };
+    let garbage_batches = if ctx.thorough() { 1200 } else { 24 };
     n_files(ctx) * CLASSES.len() as u64 + ctx.scaled(garbage_batches)
 }
 
@@ -422,6 +423,16 @@ fn field_class(name: &str) -> String {
 pub fn run_case(ctx: &Ctx, idx: u64) -> Vec<CaseOut> {
     let nf = n_files(ctx);
     let ncls = CLASSES.len() as u64;
+    // The thorough tier is cut by a wall budget: visit the case list in a fixed scattered order
+    // (multiplication by a prime that does not divide the length is a permutation), so that the
+    // part that runs is a sample of all files, classes and garbage batches instead of a prefix.
+    let idx = if ctx.thorough() {
+        let total = n_cases(ctx);
+        let p = if total % 7919 == 0 { 7907 } else { 7919 };
+        (idx * p) % total
+    } else {
+        idx
+    };
     if idx >= nf * ncls {
         return garbage_case(ctx, idx - nf * ncls);
     }
